@@ -44,3 +44,14 @@ GROUPS = {
              types={LIM + "[j]": "num", "tol[j]": "num", "line_currents": "num"}, prune_params=True),
     ]),
 }
+
+# ---------------------------------------------------------------------------------------------
+# C16: the secondary-side limit formulas of the three site factories (symbolic in the capacity),
+# and the dump of the executed factories (tools/dump_sites.py -> coq/Gen/Sites.v)
+GROUPS["SiteLim"] = dict(domains=["Q", "R"], anchors=[
+    dict(name="Caltech_secondary", file=CAL, qual="caltech_acn", expr_path="body[23].value", prune_params=True),
+    dict(name="Office_secondary", file=OFF, qual="office001_acn", expr_path="body[19].value", prune_params=True),
+    dict(name="Jpl_secondary", file=JPL, qual="jpl_acn._delta_wye_transformer", expr_path="body[4].value",
+         inline_defaults=["secondary_voltage"], prune_params=True),
+])
+EXTRA_GENERATORS = ["dump_sites"]
